@@ -38,6 +38,7 @@ def check(repo: Repo, R) -> None:
                                  "a member replaced by a member of the other kind stays in its per-kind view: the bundle port flattens to ports for leaves the definition no longer has"))
     R.run(roles_distinguishable, repo, R)
     R.run(anonymous_members_by_key, repo, R)
+    R.run(anonymous_connections_everywhere, repo, R)
     R.floor("C10.1-portdir-flipped", 1)
     R.floor("C10.2-direction-visibility-table", 1)
     R.floor("C10.3-flip-parity", 4)
@@ -85,6 +86,32 @@ def anonymous_members_by_key(repo: Repo, R):
     R.check(not bad, rule, key_of(fa, "filed-under-its-key"), fa.at(bad[0][0]) if bad else fa.site,
             f"all {len(filed)} kinds of anonymous-bundle member are filed under the member key `{kv}`" if not bad else f"a {bad[0][2]} member is filed under `{bad[0][1]}`, not under its key `{kv}`",
             why="`bundlize(tx=rx, rx=tx)` (a cross-over) is wired straight: the held instances are matched by their own names, not by the members they were given as")
+
+
+def anonymous_connections_everywhere(repo: Repo, R):
+    """Anonymous-bundle connections are taken apart wherever they can sit: on instances and on instance arrays (the arrays
+    are flattened later, and hand each element the connection they hold then)."""
+    rule = "C10.5-both-sides-agree-on-members"
+    from . import shared as _sh
+    fe = repo.func(F_FLATB, "BundleFlattener.elaborate_module")
+    seen = set()
+    n = 0
+    for lp in au.walk_no_nested(fe.node):
+        if isinstance(lp, ast.For) and any(isinstance(c, ast.Call) and ast.unparse(c.func) == "self.replace_anon_bundle_conn" for c in ast.walk(lp)):
+            n += 1
+            it = ast.unparse(au.expand(lp.iter, au.local_env(fe.node), depth=3))
+            seen |= {a for a in ("instances", "instarrays") if f"module.{a}" in it}
+            # through a helper of the repository that lists them (`instances_and_arrays(module)`)
+            for c in [x for x in ast.walk(lp.iter) if isinstance(x, ast.Call)]:
+                callee = repo.resolve_call(c, fe)
+                if isinstance(callee, FuncInfo) and callee.node.args.args:
+                    p0 = callee.node.args.args[0].arg
+                    txt = " ".join(_sh.prov_text(callee.node, r_.value) for r_ in _sh.returns_of(callee.node) if r_.value is not None)
+                    seen |= {a for a in ("instances", "instarrays") if f"{p0}.{a}" in txt}
+    if n == 0:
+        raise AnalysisError(f"idiom-unknown: {fe.site} has no loop that replaces anonymous-bundle connections")
+    R.check(seen == {"instances", "instarrays"}, rule, key_of(fe, "anonymous-conns-on-arrays-too"), fe.site, f"anonymous-bundle connections are replaced on the module's instances and instance arrays: {sorted(seen)}",
+            why="an InstanceArray with an AnonymousBundle (or dict) on a bundle port keeps it: the array flattener meets a connection it cannot hand out")
 
 
 def enum_members(repo: Repo, rel: str, cls: str) -> List[str]:
